@@ -20,6 +20,8 @@ import (
 	"encoding/json"
 	"fmt"
 	"math/big"
+	"reflect"
+	"runtime/debug"
 	"strings"
 
 	"github.com/ethereum/go-ethereum/rlp"
@@ -234,9 +236,19 @@ func cRandBlock(c *Ctx, depth int, allowOdd bool) *nom.AccountBlock {
 	case 0:
 		b.Hash = cRandHash(c)
 	default:
-		b.Hash = b.ComputeHash()
+		b.Hash = safeABHash(b)
 	}
 	return b
+}
+
+// the generators must survive a panicking ComputeHash (the case itself then reports it)
+func safeABHash(b *nom.AccountBlock) (h types.Hash) {
+	defer func() { recover() }()
+	return b.ComputeHash()
+}
+func safeMomHash(m *nom.Momentum) (h types.Hash) {
+	defer func() { recover() }()
+	return m.ComputeHash()
 }
 
 func cRandMomentum(c *Ctx) *nom.Momentum {
@@ -288,7 +300,7 @@ func cRandMomentum(c *Ctx) *nom.Momentum {
 	if c.R.Intn(8) == 0 {
 		m.Hash = cRandHash(c)
 	} else {
-		m.Hash = m.ComputeHash()
+		m.Hash = safeMomHash(m)
 	}
 	return m
 }
@@ -535,9 +547,242 @@ func momentumRoundTrips(c *Ctx, m *nom.Momentum, blocks []*nom.AccountBlock) {
 	}
 }
 
+// ---- "the hash pins down every covered field": one-field alterations must change the hash ------------------
+
+type abAlter struct {
+	name string
+	f    func(b *nom.AccountBlock)
+}
+
+var abAlterations = []abAlter{
+	{"Version", func(b *nom.AccountBlock) { b.Version++ }},
+	{"ChainIdentifier", func(b *nom.AccountBlock) { b.ChainIdentifier++ }},
+	{"BlockType", func(b *nom.AccountBlock) { b.BlockType++ }},
+	{"PreviousHash", func(b *nom.AccountBlock) { b.PreviousHash[0] ^= 1 }},
+	{"Height", func(b *nom.AccountBlock) { b.Height++ }},
+	{"MomentumAcknowledged.Hash", func(b *nom.AccountBlock) { b.MomentumAcknowledged.Hash[31] ^= 0x80 }},
+	{"MomentumAcknowledged.Height", func(b *nom.AccountBlock) { b.MomentumAcknowledged.Height++ }},
+	{"Address", func(b *nom.AccountBlock) { b.Address[19] ^= 1 }},
+	{"ToAddress", func(b *nom.AccountBlock) { b.ToAddress[0] ^= 1 }},
+	{"Amount", func(b *nom.AccountBlock) {
+		if b.Amount == nil {
+			b.Amount = big.NewInt(1)
+		} else {
+			b.Amount = new(big.Int).Add(b.Amount, big.NewInt(1))
+		}
+	}},
+	{"Amount(x256)", func(b *nom.AccountBlock) {
+		if b.Amount == nil || b.Amount.Sign() == 0 {
+			b.Amount = big.NewInt(256)
+		} else {
+			b.Amount = new(big.Int).Lsh(b.Amount, 8)
+		}
+	}},
+	{"TokenStandard", func(b *nom.AccountBlock) { b.TokenStandard[9] ^= 1 }},
+	{"FromBlockHash", func(b *nom.AccountBlock) { b.FromBlockHash[16] ^= 1 }},
+	{"DescendantBlocks(append)", func(b *nom.AccountBlock) {
+		b.DescendantBlocks = append(b.DescendantBlocks, &nom.AccountBlock{})
+	}},
+	{"DescendantBlocks[0].Hash", func(b *nom.AccountBlock) {
+		if len(b.DescendantBlocks) == 0 {
+			b.DescendantBlocks = append(b.DescendantBlocks, &nom.AccountBlock{Hash: types.Hash{1}})
+		} else {
+			b.DescendantBlocks[0].Hash[5] ^= 1
+		}
+	}},
+	{"Data(append 0)", func(b *nom.AccountBlock) { b.Data = append(append([]byte{}, b.Data...), 0) }},
+	{"Data(flip)", func(b *nom.AccountBlock) {
+		if len(b.Data) == 0 {
+			b.Data = []byte{1}
+		} else {
+			b.Data = append([]byte{}, b.Data...)
+			b.Data[len(b.Data)/2] ^= 1
+		}
+	}},
+	{"FusedPlasma", func(b *nom.AccountBlock) { b.FusedPlasma++ }},
+	{"Difficulty", func(b *nom.AccountBlock) { b.Difficulty++ }},
+	{"Nonce", func(b *nom.AccountBlock) { b.Nonce.Data[7] ^= 1 }},
+}
+
+func abSensitivity(c *Ctx, b *nom.AccountBlock) {
+	base := b.ComputeHash()
+	for _, a := range abAlterations {
+		v := b.Copy()
+		a.f(v)
+		if v.ComputeHash() == base {
+			c.Fail("two account blocks that differ only in %s have the same hash %s :: %s", a.name, base, short(blockStr(b)))
+		}
+	}
+	c.HitN("ab-one-field-alterations", len(abAlterations))
+	if c.Stats["ab-one-field-alterations"]/len(abAlterations)%4 != 1 {
+		return
+	}
+	reflectSensitivity(c, "account block", func() (interface{}, func() types.Hash) {
+		v := b.Copy()
+		return v, v.ComputeHash
+	}, abUncoveredByStatement, short(blockStr(b)))
+}
+
+// reflection over every exported field of the struct, so that a field the harness has never heard of is
+// altered too: a field that is not on the statement's list of uncovered fields must change the hash
+var abUncoveredByStatement = map[string]bool{"Hash": true, "BasePlasma": true, "TotalPlasma": true, "ChangesHash": true,
+	"PublicKey": true, "Signature": true}
+var momUncoveredByStatement = map[string]bool{"Hash": true, "Timestamp": true, "PublicKey": true, "Signature": true}
+
+// alterValue changes v (addressable) to some different value; false if the kind is not handled
+func alterValue(v reflect.Value) bool {
+	switch v.Kind() {
+	case reflect.Uint64, reflect.Uint32, reflect.Uint8, reflect.Uint:
+		v.SetUint(v.Uint() + 1)
+		return true
+	case reflect.Int64, reflect.Int:
+		v.SetInt(v.Int() + 1)
+		return true
+	case reflect.Bool:
+		v.SetBool(!v.Bool())
+		return true
+	case reflect.String:
+		v.SetString(v.String() + "x")
+		return true
+	case reflect.Array:
+		if v.Len() == 0 {
+			return false
+		}
+		return alterValue(v.Index(v.Len() - 1))
+	case reflect.Slice:
+		nv := reflect.MakeSlice(v.Type(), 0, v.Len()+1)
+		nv = reflect.AppendSlice(nv, v)
+		el := reflect.New(v.Type().Elem()).Elem()
+		if el.Kind() == reflect.Ptr {
+			el.Set(reflect.New(el.Type().Elem()))
+		} else if el.Kind() == reflect.Uint8 {
+			el.SetUint(1)
+		}
+		v.Set(reflect.Append(nv, el))
+		return true
+	case reflect.Struct:
+		for i := 0; i < v.NumField(); i++ {
+			if v.Type().Field(i).PkgPath == "" && alterValue(v.Field(i)) {
+				return true
+			}
+		}
+		return false
+	case reflect.Ptr:
+		if v.Type() == reflect.TypeOf((*big.Int)(nil)) {
+			old, _ := v.Interface().(*big.Int)
+			if old == nil {
+				old = big.NewInt(0)
+			}
+			v.Set(reflect.ValueOf(new(big.Int).Add(old, big.NewInt(1))))
+			return true
+		}
+		if v.IsNil() {
+			v.Set(reflect.New(v.Type().Elem()))
+			return true
+		}
+		return alterValue(v.Elem())
+	}
+	return false
+}
+
+func reflectSensitivity(c *Ctx, what string, fresh func() (interface{}, func() types.Hash), uncovered map[string]bool, show string) {
+	base, baseHash := fresh()
+	h0 := baseHash()
+	t := reflect.TypeOf(base).Elem()
+	for i := 0; i < t.NumField(); i++ {
+		f := t.Field(i)
+		if f.PkgPath != "" {
+			continue // unexported caches
+		}
+		v, hash := fresh()
+		if !alterValue(reflect.ValueOf(v).Elem().Field(i)) {
+			c.Fail("%s field %s of kind %s cannot be altered by the harness: extend alterValue", what, f.Name, f.Type)
+			continue
+		}
+		same := hash() == h0
+		if same && !uncovered[f.Name] {
+			c.Fail("two %ss that differ only in %s have the same hash %s :: %s", what, f.Name, h0, show)
+		}
+		if !same && uncovered[f.Name] {
+			c.Fail("%s field %s is on the statement's list of fields outside the hash but changes the hash :: %s", what, f.Name, show)
+		}
+		c.Hit(what + "-reflect-alterations")
+	}
+}
+
+type momAlter struct {
+	name string
+	f    func(m *nom.Momentum)
+}
+
+var momAlterations = []momAlter{
+	{"Version", func(m *nom.Momentum) { m.Version++ }},
+	{"ChainIdentifier", func(m *nom.Momentum) { m.ChainIdentifier++ }},
+	{"PreviousHash", func(m *nom.Momentum) { m.PreviousHash[3] ^= 1 }},
+	{"Height", func(m *nom.Momentum) { m.Height++ }},
+	{"TimestampUnix", func(m *nom.Momentum) { m.TimestampUnix++ }},
+	{"Data", func(m *nom.Momentum) { m.Data = append(append([]byte{}, m.Data...), 7) }},
+	{"Content(append)", func(m *nom.Momentum) { m.Content = append(m.Content, &types.AccountHeader{}) }},
+	{"Content[last].Height", func(m *nom.Momentum) {
+		if n := len(m.Content); n > 0 {
+			h := *m.Content[n-1]
+			h.Height++
+			m.Content[n-1] = &h
+		} else {
+			m.Content = append(m.Content, &types.AccountHeader{HashHeight: types.HashHeight{Height: 1}})
+		}
+	}},
+	{"Content[0].Address", func(m *nom.Momentum) {
+		if n := len(m.Content); n > 0 {
+			h := *m.Content[0]
+			h.Address[1] ^= 1
+			m.Content[0] = &h
+		} else {
+			m.Content = append(m.Content, &types.AccountHeader{Address: types.Address{0, 1}})
+		}
+	}},
+	{"Content[0].Hash", func(m *nom.Momentum) {
+		if n := len(m.Content); n > 0 {
+			h := *m.Content[0]
+			h.Hash[1] ^= 1
+			m.Content[0] = &h
+		} else {
+			m.Content = append(m.Content, &types.AccountHeader{HashHeight: types.HashHeight{Hash: types.Hash{0, 1}}})
+		}
+	}},
+	{"ChangesHash", func(m *nom.Momentum) { m.ChangesHash[31] ^= 1 }},
+}
+
+func momSensitivity(c *Ctx, m *nom.Momentum) {
+	base := m.ComputeHash()
+	for _, a := range momAlterations {
+		v := *m
+		v.Content = append(nom.MomentumContent{}, m.Content...)
+		a.f(&v)
+		if v.ComputeHash() == base {
+			c.Fail("two momentums that differ only in %s have the same hash %s :: %s", a.name, base, short(momentumStr(m)))
+		}
+	}
+	c.HitN("mom-one-field-alterations", len(momAlterations))
+	if c.Stats["mom-one-field-alterations"]/len(momAlterations)%4 != 1 {
+		return
+	}
+	reflectSensitivity(c, "momentum", func() (interface{}, func() types.Hash) {
+		v := *m
+		v.Content = append(nom.MomentumContent{}, m.Content...)
+		v.Data = append([]byte{}, m.Data...)
+		return &v, v.ComputeHash
+	}, momUncoveredByStatement, short(momentumStr(m)))
+}
+
 // ---- the stream ---------------------------------------------------------------------------------------
 
 func codecBlockCase(c *Ctx, b *nom.AccountBlock) {
+	defer func() {
+		if r := recover(); r != nil {
+			c.Fail("account block operation panics (%v) :: %s", r, short(blockStr(b)))
+		}
+	}()
 	pre := abPreimage(b)
 	c.Emit("ab-pre %s %s %s | %s", hx(types.NewHash(b.Data).Bytes()), hx(types.NewHash(descSource(b)).Bytes()), blockStr(b), hx(pre))
 	// monitor: the hash is SHA3 of exactly the statement's pre-image
@@ -575,10 +820,16 @@ func codecBlockCase(c *Ctx, b *nom.AccountBlock) {
 	}
 	if amountOK(b) {
 		abRoundTrips(c, b)
+		abSensitivity(c, b)
 	}
 }
 
 func codecMomentumCase(c *Ctx, m *nom.Momentum, blocks []*nom.AccountBlock) {
+	defer func() {
+		if r := recover(); r != nil {
+			c.Fail("momentum operation panics (%v) :: %s", r, short(momentumStr(m)))
+		}
+	}()
 	pre := momentumPreimage(m)
 	c.Emit("mom-pre %s %s %s | %s", hx(types.NewHash(m.Data).Bytes()), hx(types.NewHash(contentSource(m)).Bytes()), momentumStr(m), hx(pre))
 	if got := guard(func() string { return m.ComputeHash().String() }); got != types.NewHash(pre).String() {
@@ -594,6 +845,7 @@ func codecMomentumCase(c *Ctx, m *nom.Momentum, blocks []*nom.AccountBlock) {
 	}))
 	c.Hit(fmt.Sprintf("mom-content-%s", bucket(len(m.Content))))
 	momentumRoundTrips(c, m, blocks)
+	momSensitivity(c, m)
 }
 
 func bucket(n int) string {
@@ -658,6 +910,8 @@ func codecNonceParse(c *Ctx, s string) {
 
 func init() {
 	register("codec", func(c *Ctx) {
+		// many short-lived deep copies of blocks: collect less often
+		defer debug.SetGCPercent(debug.SetGCPercent(1600))
 		for _, s := range oddAmountStrings {
 			codecAmountParse(c, s)
 		}
@@ -673,7 +927,7 @@ func init() {
 			for bt := uint64(1); bt <= 5; bt++ {
 				b := cRandBlock(c, 0, false)
 				b.BlockType, b.Amount = bt, a
-				b.Hash = b.ComputeHash()
+				b.Hash = safeABHash(b)
 				codecBlockCase(c, b)
 			}
 		}
